@@ -71,7 +71,9 @@ def builder(ops, P, style=0):
     """style 0: text paths, positional; 1: JSONPointer objects; 2: keyword arguments"""
     from jsonpath import JSONPointer
     p = P()
-    w = (lambda x: JSONPointer(x)) if style == 1 else (lambda x: x)
+    def from_parts(x):       # a pre-parsed pointer whose index tokens are strings (as from_parts / to() produce them)
+        return JSONPointer.from_parts([t.replace("~1", "/").replace("~0", "~") for t in x.split("/")[1:]]) if x.startswith("/") or x == "" else x
+    w = (lambda x: JSONPointer(x)) if style == 1 else (from_parts if style == 3 else (lambda x: x))
     for o in ops:
         n = o["op"]
         if n in ("add", "addne", "addap", "replace", "test"):
@@ -194,7 +196,7 @@ def evaluate(ctx, cases):
             ctx.mismatch("patch.apply", inp, results[0], m["result"])
         import io
         more = []
-        for style in (1, 2):
+        for style in (1, 2, 3):
             b = core.outcome(lambda: builder(copy.deepcopy(ops), JSONPatch, style))
             if "ok" in b:
                 more.append(b["ok"])
